@@ -167,7 +167,10 @@ func (r *Reconciler) Reconcile(ctx context.Context, request reconcile.Request) (
 	conditions.UpdateExtendedDaemonSetReplicaSetStatusCondition(newStatus, now, datadoghqv1alpha1.ConditionTypeLastFullSync, corev1.ConditionTrue, "", "full sync", true, true)
 
 	reqLogger.V(1).Info("Updating ExtendedDaemonSetReplicaSet status")
-	err = r.updateReplicaSet(replicaSetInstance, newStatus)
+	if updateErr := r.updateReplicaSet(replicaSetInstance, newStatus); updateErr != nil {
+		errs = append(errs, updateErr)
+	}
+	err = utilserrors.NewAggregate(errs)
 
 	// Garbage collect the failedPodsBackOff map once per minute,
 	// i.e. whenever the seconds [0,59] is less than the reconcile frequency
